@@ -34,7 +34,8 @@ def configs(tier, seed):
     if tier == "quick":
         return [dict(name="lifecycle R=5 L=2", h="life", R=5, L=2, num=1, den=2, split="balanced"),
                 dict(name="lifecycle R=7 L=1", h="life", R=7, L=1, num=1, den=2, split="balanced"),
-                dict(name="lifecycle R=5 L=1 random-holdout", h="life", R=5, L=1, num=2, den=5, split="random")]
+                dict(name="lifecycle R=5 L=1 random-holdout", h="life", R=5, L=1, num=2, den=5, split="random"),
+                dict(name="lifecycle R=5 L=1, id spaces of 300 (ids past 256 in use)", h="life", R=5, L=1, num=1, den=2, split="balanced", big_map=300)]
     out = [dict(name="lifecycle R=5 L=3", h="life", R=5, L=3, num=1, den=2, split="balanced"),
            dict(name="lifecycle R=5 L=4", h="life", R=5, L=4, num=1, den=2, split="balanced"),
            dict(name="lifecycle R=7 L=3", h="life", R=7, L=3, num=1, den=2, split="balanced"),
@@ -42,6 +43,8 @@ def configs(tier, seed):
            dict(name="lifecycle R=7 L=2 random-holdout", h="life", R=7, L=2, num=2, den=5, split="random"),
            dict(name="lifecycle R=5 L=2 random-holdout", h="life", R=5, L=2, num=2, den=5, split="random"),
            dict(name="lifecycle R=5 L=3 two thirds", h="life", R=5, L=3, num=2, den=3, split="balanced")]
+    out.append(dict(name="lifecycle R=5 L=2, id spaces of 300 (ids past 256 in use)", h="life", R=5, L=2, num=1, den=2, split="balanced", big_map=300))
+    out.append(dict(name="lifecycle R=7 L=1, id spaces of 600", h="life", R=7, L=1, num=1, den=2, split="balanced", big_map=600))
     # generated screen structures (retro_common.generated_family), names replaced by names of different lengths
     from .retro_common import family
     for k in range(N_GENERATED):
@@ -116,7 +119,19 @@ def h_life(ctx, cfg):
     R = len(rows)
     obs = [ctx.real("ob%d" % i, positive=True) for i in range(R)]
     mask = [r[5] == "obs" for r in rows]
-    parent = concrete_screen(ctx, rows, observations=obs, mask=mask)
+    kw = {}
+    if cfg.get("big_map"):
+        # a prepared simulation whose id spaces are much larger than the rows at hand (ids past 255 / 256 in use)
+        N = cfg["big_map"]
+        snames = sorted({r[0] for r in rows}) + ["zs%03d" % i for i in range(N)]
+        order = list(range(len(snames)))[::-1]   # the rows' samples get the highest ids
+        kw["sample_mapping"] = (np.array(snames, dtype=str), np.array(order, dtype=int))
+        conds = sorted({(r[1], r[2]) for r in rows if r[1] != "" and r[2] > 0} | {(r[3], r[4]) for r in rows if r[3] != "" and r[4] > 0})
+        tn = [c[0] for c in conds] + ["zt%03d" % i for i in range(N)] + [""]
+        td = [c[1] for c in conds] + [1.0] * N + [0.0]
+        ti = list(range(len(tn) - 1))[::-1] + [-1]
+        kw["treatment_mapping"] = (np.array(tn, dtype=str), np.array(td, dtype=float), np.array(ti, dtype=int))
+    parent = concrete_screen(ctx, rows, observations=obs, mask=mask, **kw)
     frac = cfg["num"] / float(cfg["den"])
     rng = ctx.rng("R")
     if cfg["split"] == "balanced":
@@ -138,6 +153,10 @@ def h_life(ctx, cfg):
     ctx.prove(train.size + test.size == R, "training + hold-out = prepared screen")
     _check_stage(ctx, train, parent, "the hold-out split (training)", theta, ref_pred_of)
     _check_stage(ctx, test, parent, "the hold-out split (test)", theta, ref_pred_of)
+    def snap(x):
+        return (x.sample_ids.tolist(), x.treatment_ids.tolist(), [a.tolist() for a in x.sample_mapping], [a.tolist() for a in x.treatment_mapping],
+                x.observation_mask.tolist(), x.plate_ids.tolist())
+    stages = [("prepared screen", parent, snap(parent)), ("training screen", train, snap(train)), ("test screen", test, snap(test))]
     cur = train
     hist = []
     for step in range(cfg["L"]):
@@ -164,6 +183,11 @@ def h_life(ctx, cfg):
             cur, label = data.Screen.load_h5(fn), "save/load"
         hist.append(label)
         _check_stage(ctx, cur, parent, label, theta, ref_pred_of)
+        # ids are stable for the screens already handed out, too: a later stage never renumbers or re-masks an earlier one
+        for what, x, before in stages:
+            ctx.prove(snap(x) == before, "an earlier stage keeps its ids, mappings and observation status when a later stage is derived from it",
+                      key="%s modified by %s" % (what, label))
+        stages.append(("stage %d" % step, cur, snap(cur)))
     return hist
 
 
